@@ -143,7 +143,11 @@ func holdFor(name string) {
 	if !ok {
 		return
 	}
-	for i := 0; i < 200; i++ {
+	iters := 200 // 0.4 s; VND_HOLD_ITER lengthens it for replays of time-outs measured in seconds
+	if v, err := strconv.Atoi(os.Getenv("VND_HOLD_ITER")); err == nil && v > 0 {
+		iters = v
+	}
+	for i := 0; i < iters; i++ {
 		mu.Lock()
 		n := counts[target]
 		mu.Unlock()
